@@ -20,16 +20,31 @@ type CodeWriter struct {
 	// semiOmitted is true while the last thing a printer did was to leave out an
 	// optional semicolon (nothing has been written since)
 	semiOmitted bool
+	// deferred is the mapping requested for the token about to be written
+	deferred deferredMapping
 }
 
 // emit appends text to the buffer and keeps the source mapper's generated
 // position in step with it. Every write to the buffer goes through emit or
 // WriteRune, including layout whitespace and comments.
 func (cw *CodeWriter) emit(s string) {
+	cw.write(s, false)
+}
+
+// write appends text; for a token (as opposed to layout whitespace and comments)
+// the mapping requested for it is recorded right before its first character.
+func (cw *CodeWriter) write(s string, isToken bool) {
 	if len(s) == 0 {
+		if isToken {
+			// an empty token has no position to map
+			cw.deferred = deferredMapping{}
+		}
 		return
 	}
 	cw.separateSigns(s[0])
+	if isToken {
+		cw.commitMapping()
+	}
 	cw.Builder.WriteString(s)
 	cw.lastByte = s[len(s)-1]
 	cw.semiOmitted = false
@@ -56,13 +71,14 @@ func (cw *CodeWriter) separateSigns(next byte) {
 // WriteString writes a string to the buffer
 func (cw *CodeWriter) WriteString(s string) {
 	cw.flushPending()
-	cw.emit(s)
+	cw.write(s, true)
 }
 
 // WriteRune writes a rune to the buffer
 func (cw *CodeWriter) WriteRune(r rune) {
 	cw.flushPending()
 	cw.separateSigns(byte(r))
+	cw.commitMapping()
 	cw.Builder.WriteRune(r)
 	cw.lastByte = byte(r)
 	cw.semiOmitted = false
